@@ -195,3 +195,42 @@ fn cosine_range() {
     kani::cover!(d == 1.0);
     kani::cover!(d == 0.0 && pn * qn > f32::EPSILON);
 }
+
+
+static mut EUC_R: f32 = 0.0;
+fn uf_euclid(_u: &UnalignedVector<f32>, _v: &UnalignedVector<f32>) -> f32 {
+    unsafe {
+        EUC_R = kani::any();
+        EUC_R
+    }
+}
+
+/// DotProduct reports the inner product itself (negated internally, sign restored by
+/// normalized_distance) and Euclidean the kernel's value, whatever the leaf headers contain
+/// (the headers written by preprocess / stale headers must not leak into reported distances).
+#[kani::proof]
+#[kani::unwind(6)]
+#[kani::stub(alloc::fmt::format, stub_format)]
+#[kani::stub(crate::spaces::simple::dot_product, uf_dot)]
+#[kani::stub(crate::spaces::simple::euclidean_distance, uf_euclid)]
+fn built_distance_is_the_kernel_value() {
+    let vb: [u8; 8] = kani::any();
+    let wb: [u8; 8] = kani::any();
+    let v = UnalignedVector::<f32>::from_bytes_unchecked(&vb);
+    let w = UnalignedVector::<f32>::from_bytes_unchecked(&wb);
+    let h1: [f32; 2] = kani::any();
+    let h2: [f32; 2] = kani::any();
+    let lp: Leaf<DotProduct> = Leaf { header: bytemuck::cast::<[f32; 2], NodeHeaderDotProduct>(h1), vector: Cow::Borrowed(v) };
+    let lq: Leaf<DotProduct> = Leaf { header: bytemuck::cast::<[f32; 2], NodeHeaderDotProduct>(h2), vector: Cow::Borrowed(w) };
+    let d = DotProduct::built_distance(&lp, &lq);
+    let dot = unsafe { DOT_R };
+    assert!(d.to_bits() == (-dot).to_bits());
+    assert!(DotProduct::normalized_distance(d, 2).to_bits() == dot.to_bits() || dot.is_nan());
+    let b1: f32 = kani::any();
+    let b2: f32 = kani::any();
+    let ep: Leaf<Euclidean> = Leaf { header: bytemuck::cast::<f32, NodeHeaderEuclidean>(b1), vector: Cow::Borrowed(v) };
+    let eq: Leaf<Euclidean> = Leaf { header: bytemuck::cast::<f32, NodeHeaderEuclidean>(b2), vector: Cow::Borrowed(w) };
+    let e = Euclidean::built_distance(&ep, &eq);
+    assert!(e.to_bits() == unsafe { EUC_R }.to_bits());
+    kani::cover!(h1[0] != 0.0 && h2[0] != 0.0);
+}
